@@ -6,6 +6,8 @@
 (*   {"e":"wire","rx","bytes"}                  the bytes written to its socket *)
 (*   {"e":"rec","frame","t","ts","df","icao","seen","m":[{"rx","id","t"}]}     *)
 (*   {"e":"table","stable","tab":[{"icao","count","first","last"}]}            *)
+(*   {"e":"track","icao","h":[{"df","icao","tu","m":[{"rx","id"}]}]}   /track of one address *)
+(*   {"e":"sensors","ok","list":[{"rx","has","lat","lon"}]}           /sensors; scenario.ref *)
 (*   {"e":"end"}                                                                *)
 (* junk: lines on stdout that are not records; died: the program ended by      *)
 (* itself (a crash is an observation: clause x_died).                           *)
@@ -71,11 +73,17 @@ AtEnd(a, b) ==
       recs == RecsOf(a, b)
       T == Lines(a, b, "table")
       tabEv == Rec[T[1]]
-  IN IF ~(Len(T) = 1 /\ DriverOk(a, b, In)) THEN PrintT(<<"SELFCHECK", a>>)
+      Tr == Lines(a, b, "track")
+      tracks == [x \in DOMAIN Tr |-> Rec[Tr[x]]]
+      Se == Lines(a, b, "sensors")
+      sensEv == Rec[Se[1]]
+  IN IF ~(Len(T) = 1 /\ Len(Se) = 1 /\ Len(sc.ref) = sc.nrx /\ DriverOk(a, b, In)) THEN PrintT(<<"SELFCHECK", a>>)
      ELSE LET V == Violations(In, sc.w, Skew, CfgOf(sc), recs, tabEv.tab, tabEv.stable)
                    \cup (IF Cardinality(SetOf(sc.serials)) # Len(sc.serials) THEN {"a_serial"} ELSE {})
                    \cup (IF sc.junk # 0 THEN {"c_junk"} ELSE {})
                    \cup (IF sc.died THEN {"x_died"} ELSE {})
+                   \cup TrackViolations(In, CfgOf(sc), recs, tracks)
+                   \cup (IF sensEv.ok THEN SensorViolations(sc.ref, sensEv.list) ELSE {})
           IN /\ \A c \in V : PrintT(<<"REJECT", a, c>>)
              /\ IF V = {} THEN PrintT(<<"STRICT", a, Strict(In, sc.w, recs)>>) ELSE TRUE
 
